@@ -27,7 +27,13 @@ type KnownFile struct {
 	Fixed    []string  `json:"fixed"`
 }
 
-const VerifDir = "/verif"
+// VerifDir: see verifDir in cmd/nutsim.
+var VerifDir = func() string {
+	if d := os.Getenv("VERIF_DIR"); d != "" {
+		return d
+	}
+	return "/verif"
+}()
 
 func LoadKnown() (*KnownFile, error) {
 	b, err := os.ReadFile(filepath.Join(VerifDir, "known_findings.json"))
